@@ -72,7 +72,9 @@ AncR(r) == IF R(r).parent = 0 THEN {} ELSE {R(r).parent} \cup AncR(R(r).parent)
 Kids(c)  == {t \in 1..NT : T(t).parent = c}
 Leafs    == {t \in 1..NT : T(t).leaf}
 AllDeps(t) == UNION {SeqSet(T(a).deps) : a \in {t} \cup AncT(t)}   \* own + every enclosing container's
-Succs(t) == {u \in Leafs : \E d \in AllDeps(u) : d.p = t}    \* own and inherited edges alike
+\* own and inherited edges alike, and edges that name a container enclosing t (the container ends when its last leaf does);
+\* a task below that container is not its own successor
+Succs(t) == {u \in Leafs : \E d \in AllDeps(u) : d.p \in ({t} \cup AncT(t)) /\ d.p \notin AncT(u)}
 
 (* ------------------------------- ledger ------------------------------------ *)
 Used(r, s)  == IF <<r, s>> \in DOMAIN used THEN used[<<r, s>>] ELSE 0
@@ -116,7 +118,7 @@ BoundF(t) ==
 RECURSIVE NearestEnd(_)
 NearestEnd(t) == IF T(t).parent = 0 THEN -1
                  ELSE IF T(T(t).parent).pinEnd >= 0 THEN T(T(t).parent).pinEnd ELSE NearestEnd(T(t).parent)
-FSuccs(t) == {u \in Leafs : \E d \in AllDeps(u) : d.p = t /\ ~d.onstart}
+FSuccs(t) == {u \in Leafs : \E d \in AllDeps(u) : d.p \in ({t} \cup AncT(t)) /\ d.p \notin AncT(u) /\ ~d.onstart}
 Terminal(t) == FSuccs(t) = {} /\ \A d \in AllDeps(t) : ~d.onstart
 UbEnd(t) == IF T(t).leaf /\ ~Fwd(t) /\ T(t).pinEnd < 0 /\ Terminal(t) THEN NearestEnd(t) ELSE -1
 OwnEnd(t) == IF T(t).pinEnd >= 0 THEN T(t).pinEnd ELSE UbEnd(t)
@@ -129,7 +131,7 @@ OnLoop(t) == t \in ReachS({t}, {})
 ReadyB(t) == \/ (OwnEnd(t) >= 0 /\ ~(T(t).pinEnd >= 0 /\ OnLoop(t)))
              \/ /\ \A d \in AllDeps(t) : d.onstart => (d.p # 0 /\ ts[d.p].sched)
                 /\ \A u \in Succs(t) : ts[u].sched
-GapTo(u, t) == LET ds == {d \in AllDeps(u) : d.p = t /\ ~d.onstart}
+GapTo(u, t) == LET ds == {d \in AllDeps(u) : d.p \in ({t} \cup AncT(t)) /\ d.p \notin AncT(u) /\ ~d.onstart}
                IN IF ds = {} THEN 0 ELSE MaxOf({d.gap : d \in ds})
 Deadline(t) ==
   IF OwnEnd(t) >= 0 THEN OwnEnd(t)
@@ -231,7 +233,7 @@ P04Of(t, st, en) ==
          \A d \in {x \in AllDeps(t) : x.p # 0 /\ ts[x.p].sched /\ ts[x.p].fwd = Fwd(t) /\ (x.onstart => Fwd(t))} :
             st >= (IF d.onstart THEN ts[d.p].start ELSE ts[d.p].end) + d.gap
    /\ \A u \in {v \in Succs(t) : ts[v].sched /\ ~Pinned(v) /\ ts[v].fwd = Fwd(t)} :   \* successors placed before t (backward mode)
-         \A d \in {x \in AllDeps(u) : x.p = t /\ ~x.onstart} : ts[u].start >= en + d.gap
+         \A d \in {x \in AllDeps(u) : x.p \in ({t} \cup AncT(t)) /\ x.p \notin AncT(u) /\ ~x.onstart} : ts[u].start >= en + d.gap
 \* C08 (forward) for a single unlimited resource: at Finish (no other task has moved since t started) every
 \* on-shift slot between the bound slot and the last one has no free tick left -- t took whatever was free
 \* when it passed.  Lead-in reservations of other tasks count as used (D6).
